@@ -491,16 +491,15 @@ def cholesky_band(l, mininf=0.0):
         #
         # Figure out where the error is.
         #
-        lower = l.copy()
-        kn = bw - 1
-        spot = np.arange(kn, dtype='i4') + 1
-        for j in range(n):
-            lower[0, j] = np.sqrt(lower[0, j])
-            lower[spot, j] /= lower[0, j]
-            x = lower[spot, j]
-            if not np.all(np.isfinite(x)):
+        # The first leading block that cannot be factored locates the
+        # problem; the full matrix is known to fail, so this always returns.
+        #
+        for j in range(1, n + 1):
+            try:
+                cholesky_banded(l[:, 0:j], lower=True)
+            except LinAlgError:
                 warn('NaN found in cholesky_band.', PydlutilsUserWarning)
-                return (j, l)
+                return (j - 1, l)
     #
     # Restore padding.
     #
